@@ -295,6 +295,19 @@ def r2_random_sources(ctx) -> None:
             r.violation("C20.R2", cq, f"class {ci.name}: default object repr", "instances print as '<… object at 0x…>': every message that interpolates such a value (e.g. the type error of a modifier) contains a memory address and differs between runs — and between the error raised in strict mode and the one collected in collecting mode", loc)
     if n_vt < 10:
         raise AnalysisError("fewer than 10 SigmaType subclasses found")
+    # condition strings are rewritten with random identifiers (_filt_<random>_…, _cond_<random>) before they are parsed:
+    # an error message must not quote the condition text
+    for q, fi in sorted(prog.funcs.items()):
+        if fi.module.name != "sigma.conditions":
+            continue
+        for rs in (x for x in walk_no_nested(fi.node) if isinstance(x, ast.Raise) and x.exc is not None):
+            txt = unparse(rs.exc)
+            loc = f"{fi.module.relpath}:{rs.lineno}"
+            quoting = [k for k in (".explain(", ".markInputline(", ".mark_input_line(", ".line", ".pstr", "self.condition") if k in txt]
+            if quoting:
+                r.violation("C20.R2", q, short(rs, 120), f"the error message quotes the condition text ({quoting[0]}): conditions are parsed after filters and add_condition rewrote them with random identifiers, so the error record of a failing rule differs from run to run", loc)
+            elif "ParseException" in unparse(prog.enclosing_stmt(rs)) or "str(e)" in txt:
+                r.ok("C20.R2", q, f"parse error reported as {short(rs.exc, 60)} (position and expectation, not the condition text)", loc)
     # conversion code must not read the places random names live in
     for q, fi in sorted(prog.funcs.items()):
         if not fi.module.name.startswith(("sigma.conversion", "sigma.backends")):
